@@ -67,6 +67,76 @@ pub open spec fn cc_result_ok(r: Result<Expression, Error>, cc: Cc) -> bool {
     r matches Ok(e) && expr_wf(e) && expr_bits(e) == 1 && (forall|env: Env| #[trigger] cc_env_ok(e, cc, env))
 }
 
+// ---- flag formulas: a truth-table interpreter for the 1-bit expressions cc_condition builds -------------------------------
+/// truth value of a flag formula under a valuation of the 1-bit scalars (None: not a flag formula)
+pub open spec fn feval(e: Expression, val: spec_fn(Scalar) -> bool) -> Option<bool>
+    decreases e,
+{
+    match e {
+        Expression::Scalar(s) => if s.bits == 1 { Some(val(s)) } else { None },
+        Expression::Constant(c) => if c.bits == 1 && c.wf() { Some(c.value@ == 1) } else { None },
+        Expression::Cmpeq(l, r) => match (feval(*l, val), feval(*r, val)) { (Some(a), Some(b)) => Some(a == b), _ => None },
+        Expression::Cmpneq(l, r) => match (feval(*l, val), feval(*r, val)) { (Some(a), Some(b)) => Some(a != b), _ => None },
+        Expression::And(l, r) => match (feval(*l, val), feval(*r, val)) { (Some(a), Some(b)) => Some(a && b), _ => None },
+        Expression::Or(l, r) => match (feval(*l, val), feval(*r, val)) { (Some(a), Some(b)) => Some(a || b), _ => None },
+        _ => None,
+    }
+}
+/// every scalar of the formula is one of the five flag scalars
+pub open spec fn only_flags(e: Expression) -> bool
+    decreases e,
+{
+    match e {
+        Expression::Scalar(s) => s == flag_scalar("CF"@) || s == flag_scalar("ZF"@) || s == flag_scalar("SF"@) || s == flag_scalar("OF"@) || s == flag_scalar("PF"@),
+        Expression::Cmpeq(l, r) | Expression::Cmpneq(l, r) | Expression::And(l, r) | Expression::Or(l, r) => only_flags(*l) && only_flags(*r),
+        _ => true,
+    }
+}
+pub open spec fn val_of(env: Env) -> spec_fn(Scalar) -> bool { |s: Scalar| sv(env, s) == 1 }
+pub open spec fn flags_val(val: spec_fn(Scalar) -> bool) -> Flags {
+    Flags { cf: val(flag_scalar("CF"@)), zf: val(flag_scalar("ZF"@)), sf: val(flag_scalar("SF"@)), of: val(flag_scalar("OF"@)), pf: val(flag_scalar("PF"@)) }
+}
+/// the truth table of `e` over ALL valuations of the flags is the SDM condition
+pub open spec fn cc_table_ok(e: Expression, cc: Cc, val: spec_fn(Scalar) -> bool) -> bool { feval(e, val) == Some(sdm_holds(cc, flags_val(val))) }
+pub open spec fn cc_formula_ok(r: Result<Expression, Error>, cc: Cc) -> bool {
+    r matches Ok(e) && expr_wf(e) && expr_bits(e) == 1 && only_flags(e) && (forall|val: spec_fn(Scalar) -> bool| #[trigger] cc_table_ok(e, cc, val))
+}
+
+/// soundness of the interpreter: in a state that binds the flags a flag formula evaluates to its truth value
+pub proof fn lemma_feval_sound(e: Expression, env: Env)
+    requires expr_wf(e), env_sorted(env), flags_bound(env), only_flags(e), feval(e, val_of(env)) is Some,
+    ensures eval_spec(e, env) == EvalR::Val(1, b2n(feval(e, val_of(env))->Some_0)),
+    decreases e,
+{
+    lemma2_to64();
+    assert(pow2(1) == 2);
+    match e {
+        Expression::Scalar(s) => { lemma_scalar_bit(s, env); assert(env(s) is Some); }
+        Expression::Constant(c) => { }
+        Expression::Cmpeq(l, r) => { lemma_feval_sound(*l, env); lemma_feval_sound(*r, env); reveal(bv_cmpeq); }
+        Expression::Cmpneq(l, r) => { lemma_feval_sound(*l, env); lemma_feval_sound(*r, env); reveal(bv_cmpneq); }
+        Expression::And(l, r) => { lemma_feval_sound(*l, env); lemma_feval_sound(*r, env); lemma_bool_ops(*l, *r, env); }
+        Expression::Or(l, r) => { lemma_feval_sound(*l, env); lemma_feval_sound(*r, env); lemma_bool_ops(*l, *r, env); }
+        _ => { }
+    }
+}
+
+/// the truth-table statement implies the statement about IL states (the property's wording)
+pub proof fn lemma_formula_semantics(r: Result<Expression, Error>, cc: Cc)
+    requires cc_formula_ok(r, cc),
+    ensures cc_result_ok(r, cc),
+{
+    let e = r->Ok_0;
+    assert forall|env: Env| #[trigger] cc_env_ok(e, cc, env) by {
+        if env_sorted(env) && flags_bound(env) {
+            let val = val_of(env);
+            assert(cc_table_ok(e, cc, val));
+            lemma_feval_sound(e, env);
+            assert(flags_val(val) == flags_of(env));
+        }
+    }
+}
+
 /// `e` is 1 exactly when register `x` reads as zero
 pub open spec fn count_env_ok(e: Expression, x: X86Register, env: Env) -> bool {
     env_sorted(env) ==> (reg_read(x, env) matches EvalR::Val(w, v) ==> eval_spec(e, env) == EvalR::Val(1, b2n(v == 0)))
@@ -161,10 +231,10 @@ pub proof fn lemma_reg_zero(x: X86Register, e: Expression, c: Constant, env: Env
 impl<'s> Semantics<'s> {
 
 //@ fn impl<'s> Semantics<'s> :: fn cc_condition
-//@ attr #[verifier::rlimit(80)]
 //@ spec
     ensures
-        /*@flags*/ self.instruction.id matches capstone::InstrIdArch::X86(i) ==> (sdm_cc(i) matches Some(cc) ==> cc_result_ok(r, cc)),
+        /*@flags*/ self.instruction.id matches capstone::InstrIdArch::X86(i) ==> (sdm_cc(i) matches Some(cc) ==> cc_formula_ok(r, cc)),
+        /*@flags_states*/ self.instruction.id matches capstone::InstrIdArch::X86(i) ==> (sdm_cc(i) matches Some(cc) ==> (cc_formula_ok(r, cc) ==> cc_result_ok(r, cc))),
         /*@jcxz*/ self.instruction.id matches capstone::InstrIdArch::X86(i) ==> i == x86_insn::X86_INS_JCXZ ==> count_test_ok(r, *self.mode, x86_reg::X86_REG_CX, 16),
         /*@jecxz*/ self.instruction.id matches capstone::InstrIdArch::X86(i) ==> i == x86_insn::X86_INS_JECXZ ==> count_test_ok(r, *self.mode, x86_reg::X86_REG_ECX, 32),
         /*@other*/ self.instruction.id matches capstone::InstrIdArch::X86(i) ==> (sdm_cc(i) is None && i != x86_insn::X86_INS_JCXZ && i != x86_insn::X86_INS_JECXZ) ==> r is Err,
@@ -178,17 +248,8 @@ impl<'s> Semantics<'s> {
         reveal_with_fuel(expr_wf, 3); reveal_with_fuel(expr_bits, 3);
         lemma_pow2_pos(16); lemma_pow2_pos(32);
         lemma_small_mod(0, pow2(16)); lemma_small_mod(0, pow2(32)); lemma_small_mod(0, 2); lemma_small_mod(1, 2);
-        assert forall|s: Scalar, c: Constant, env: Env| (c.wf() && c.bits == 1 && s.bits == 1 && env_sorted(env) && env(s) is Some)
-            implies #[trigger] eval_spec(Expression::Cmpeq(Box::new(Expression::Scalar(s)), Box::new(Expression::Constant(c))), env) == EvalR::Val(1, b2n(sv(env, s) == c.value@)) by { lemma_scalar_is(s, c, env); }
-        assert forall|a: Scalar, b: Scalar, env: Env| (env_sorted(env) && a.bits == 1 && b.bits == 1 && env(a) is Some && env(b) is Some)
-            implies #[trigger] eval_spec(Expression::Cmpeq(Box::new(Expression::Scalar(a)), Box::new(Expression::Scalar(b))), env) == EvalR::Val(1, b2n(sv(env, a) == sv(env, b))) by { lemma_scalar_cmp(a, b, env); }
-        assert forall|a: Scalar, b: Scalar, env: Env| (env_sorted(env) && a.bits == 1 && b.bits == 1 && env(a) is Some && env(b) is Some)
-            implies #[trigger] eval_spec(Expression::Cmpneq(Box::new(Expression::Scalar(a)), Box::new(Expression::Scalar(b))), env) == EvalR::Val(1, b2n(sv(env, a) != sv(env, b))) by { lemma_scalar_cmp(a, b, env); }
-        assert forall|x: Expression, y: Expression, env: Env| (is_bit(eval_spec(x, env)) && is_bit(eval_spec(y, env)))
-            implies #[trigger] eval_spec(Expression::And(Box::new(x), Box::new(y)), env) == EvalR::Val(1, b2n(bit_set(eval_spec(x, env)) && bit_set(eval_spec(y, env)))) by { lemma_bool_ops(x, y, env); }
-        assert forall|x: Expression, y: Expression, env: Env| (is_bit(eval_spec(x, env)) && is_bit(eval_spec(y, env)))
-            implies #[trigger] eval_spec(Expression::Or(Box::new(x), Box::new(y)), env) == EvalR::Val(1, b2n(bit_set(eval_spec(x, env)) || bit_set(eval_spec(y, env)))) by { lemma_bool_ops(x, y, env); }
-        assert forall|s: Scalar, env: Env| (env_sorted(env) && s.bits == 1) implies #[trigger] sv(env, s) < 2 by { lemma_scalar_bit(s, env); }
+        reveal_with_fuel(feval, 4); reveal_with_fuel(only_flags, 4);
+        assert forall|r0: Result<Expression, Error>, cc: Cc| #[trigger] cc_formula_ok(r0, cc) implies cc_result_ok(r0, cc) by { lemma_formula_semantics(r0, cc); }
         assert forall|x: X86Register, e: Expression, c: Constant, env: Env| (env_sorted(env) && eval_spec(e, env) == reg_read(x, env) && c.wf() && c.bits == x.bits && c.value@ == 0)
             implies #[trigger] count_env_ok(Expression::Cmpeq(Box::new(e), Box::new(Expression::Constant(c))), x, env) by { lemma_reg_zero(x, e, c, env); }
     }
